@@ -42,7 +42,9 @@ TABLES = {0: TranslationTable.DEFAULT, 1: TranslationTable.STANDARD, 11: Transla
 def world_description(tier):
     w = WORLD[tier]
     return ((f"three-exon structures N={w['N3']} x all 27 frame vectors; " if w["N3"] else "") + f"structure: layouts N={w['N']} k<={w['k']} x strands x all frame vectors; windows: layouts N={w['Nw']} k<=2 x all (a,b) x expand; "
-            f"sequence: 3 genomes on layouts N={w['Nc']}; codon table: 64 codons x 3 positions x 2 structures x 3 tables x truncate x strict")
+            f"sequence: 3 genomes on layouts N={w['Nc']}; codon table: 64 codons x 3 positions x 2 structures x 3 tables x truncate x strict; "
+            f"windows also on chunk-built CDS (containing / cutting chunks); scale family: CDS of {SCALE_KS[tier]} exons x strands x start frames x "
+            f"frameshift at the middle exon")
 
 
 def shards(tier, seed):
@@ -51,6 +53,7 @@ def shards(tier, seed):
         out += [{"tier": tier, "part": "struct3", "i": i} for i in range(NSH)]
     out += [{"tier": tier, "part": "frames", "i": i} for i in range(8)]
     out += [{"tier": tier, "part": "codontable", "i": i} for i in range(8)]
+    out += [{"tier": tier, "part": "scale", "i": i} for i in range(16)]
     return out
 
 
@@ -92,7 +95,7 @@ def cmp_codons(res, op, case, o, exp, strand):
 
 
 def check_struct(res, N, bl, strand, frames, gname, seq_checks=True):
-    genome = (GENOMES[gname] * 2)[:max(N, 1)]
+    genome = (GENOMES[gname] * (N // len(GENOMES[gname]) + 2))[:max(N, 1)]
     cds_o = lib.outcome(mk, bl, strand, frames, genome)
     case = dict(kind="struct", N=N, blocks=[list(b) for b in bl], strand=strand, frames=list(frames), genome=gname)
     res.trans()
@@ -394,6 +397,9 @@ def check_codontable(res, codon, pos, two_exon):
                     res.deviation("translate", case, o[1], ep, sig="ct-translate")
 
 
+SCALE_KS = {"quick": (4, 6, 9, 16), "thorough": (4, 5, 6, 7, 8, 9, 11, 16, 24, 33)}
+
+
 def frame_vectors(k):
     return itertools.product((0, 1, 2), repeat=k)
 
@@ -452,6 +458,25 @@ def run_shard(shard):
             for strand in "+-":
                 for f0 in (0, 1, 2):
                     check_frames(res, N, bl, strand, f0)
+    elif part == "scale":
+        # the scale family (vlib/worlds.py): CDS with many exons; frame vectors: one uninterrupted frame for every start
+        # offset, and the same with a programmed frameshift (+1 / +2) at the middle exon
+        idx = 0
+        for k, bl in worlds.scale_layouts(tier, offset=1, ks=SCALE_KS[tier], npat=2 if tier == "quick" else 3):
+            for strand in "+-":
+                for f0 in (0, 1, 2):
+                    if len(F.exons_5to3(bl, strand)[0]) < f0:
+                        continue
+                    base = F.consistent_frames_plus_order(bl, strand, f0)
+                    mid = len(bl) // 2
+                    for bump in (0, 1, 2):
+                        idx += 1
+                        if idx % 16 != shard["i"]:
+                            continue
+                        fv = list(base)
+                        fv[mid] = (fv[mid] + bump) % 3
+                        check_struct(res, bl[-1][1] + 2, bl, strand, tuple(fv), "startstop", seq_checks=True)
+        res.sample({"scale": "many-exon CDS", "ks": list(SCALE_KS[tier])})
     elif part == "codontable":
         for idx, codon in enumerate(STRICT64 + AMBIG + [c.lower() for c in ("ATG", "TAA", "CTN")]):
             if idx % 8 != shard["i"]:
